@@ -34,12 +34,19 @@ import (
 	"verif/model"
 )
 
+// The outer anchors lie outside the range in which time.Time.UnixNano is defined (1678..2262): a window test done on
+// wrapped integers instead of instants orders them wrongly. T0 < T1 < T2 as before.
+var (
+	t0x = time.Date(1500, 6, 1, 0, 0, 0, 0, time.UTC)
+	t2x = time.Date(2300, 6, 1, 4, 21, 0, 0, time.UTC)
+)
+
 var (
 	na, nb, nc, nz = model.N("/u", "a"), model.N("/u", "b"), model.N("/u", "c"), model.N("/u", "z")
 	zonePlus2      = time.FixedZone("plus2", 2*3600)
 	opT1           = model.OP(model.PT("p", model.T1))
-	opR0           = model.OP(model.PT("r", model.T0))
-	opP2           = model.OP(model.PT("p", model.T2))
+	opR0           = model.OP(model.PT("r", t0x))
+	opP2           = model.OP(model.PT("p", t2x))
 )
 
 // universe: two predicate identifiers, anchors T0 < T1 < T2, one immutable
@@ -49,18 +56,18 @@ var (
 func universe(n int) []*triple.Triple {
 	u := []*triple.Triple{
 		model.T(na, model.PI("p"), model.ON(nb)),           // 0
-		model.T(na, model.PT("p", model.T0), model.ON(nb)), // 1
+		model.T(na, model.PT("p", t0x), model.ON(nb)), // 1
 		model.T(na, model.PT("p", model.T1), model.ON(nb)), // 2
 		model.T(na, model.PT("p", model.T1), model.ON(nc)), // 3 tie with 2
-		model.T(na, model.PT("q", model.T2), opT1),         // 4 temporal predicate as object
+		model.T(na, model.PT("q", t2x), opT1),         // 4 temporal predicate as object
 		// 5: ANOTHER object predicate id under the SAME triple predicate: "latest" on the object
 		// field groups by the object's predicate id, not by the triple's
-		model.T(na, model.PT("q", model.T2), opR0),
+		model.T(na, model.PT("q", t2x), opR0),
 		model.T(na, model.PI("q"), model.ON(nb)), // 6
 		// 7: the SAME object predicate id as 4 under ANOTHER triple predicate id, later anchor
-		model.T(na, model.PT("p", model.T2), opP2),
-		model.T(nc, model.PT("q", model.T2), opP2),         // 8
-		model.T(nc, model.PT("p", model.T2), model.ON(nb)), // 9
+		model.T(na, model.PT("p", t2x), opP2),
+		model.T(nc, model.PT("q", t2x), opP2),         // 8
+		model.T(nc, model.PT("p", t2x), model.ON(nb)), // 9
 	}
 	return u[:n]
 }
@@ -68,10 +75,10 @@ func universe(n int) []*triple.Triple {
 var (
 	argS = []*node.Node{na, nc, nz}
 	argP = []*predicate.Predicate{
-		model.PI("p"), model.PT("p", model.T0), model.PT("p", model.T1),
+		model.PI("p"), model.PT("p", t0x), model.PT("p", model.T1),
 		model.PT("p", model.T1.In(zonePlus2)), // same instant as p@T1, written in another zone
-		model.PT("p", model.T2),
-		model.PT("q", model.T2), model.PT("q", model.T2.In(zonePlus2)), model.PI("q"),
+		model.PT("p", t2x),
+		model.PT("q", t2x), model.PT("q", t2x.In(zonePlus2)), model.PI("q"),
 	}
 	argO = []*triple.Object{model.ON(nb), model.ON(nc), opT1, model.ON(nz), opR0, opP2}
 )
@@ -128,7 +135,7 @@ func grid(thorough bool) []qref {
 // ---- option grid --------------------------------------------------------------
 
 func windows() [][2]*time.Time {
-	t0, t1, t2 := model.T0, model.T1, model.T2
+	t0, t1, t2 := t0x, model.T1, t2x
 	b := []*time.Time{nil, &t0, &t1, &t2}
 	var w [][2]*time.Time
 	for _, lo := range b {
